@@ -1452,9 +1452,9 @@ func (s *mgSim) envProgress(j *mgJob, v int) bool {
 			r.Probe("env:replacement-bound-to-reservation")
 		} else {
 			r.Probe("env:replacement-placed-elsewhere")
-			if p.spec.SameName {
-				s.tagReplacedOntoReservationNode(p, node)
-			}
+		}
+		if p.spec.SameName {
+			s.tagReplacedOntoReservationNode(p, node) // looks at every job that targets this pod name
 		}
 		r.Event("env replacement %s on %s bound=%v", name, node, bind)
 		return true
